@@ -9,10 +9,10 @@ from . import check_world as CW
 
 MODULES = {
     "C02": ["NSG.Properties.C02"],
-    "C03": ["NSG.Properties.C03", "NSG.Properties.C03Loader"],
+    "C03": ["NSG.Properties.C03", "NSG.Properties.C03Loader", "NSG.Properties.SystemInv"],
     "C08": ["NSG.Properties.C08", "NSG.Properties.SystemInv"],
     "C11": ["NSG.Properties.C11", "NSG.Properties.SystemInv"],
-    "C12": ["NSG.Properties.C12", "NSG.Properties.C12Coord"],
+    "C12": ["NSG.Properties.C12", "NSG.Properties.C12Coord", "NSG.Properties.SystemInv"],
 }
 RULES = {
     "C02": "random walks of 1-3 agents on shipped and generated worlds; evaluations = world steps with pre=false compared with the model; non-trivial = exactly one guard of the precondition false (distinct by action type, guard, view, action)",
